@@ -247,15 +247,7 @@ def cfloat_int_source_needs_rounding_or_overflows(c):
 @pred
 def native_subnormal_source(c):
     x, e, f, fb = _src_double(c)
-    if not (e == 0 and f != 0):
-        return False
-    # only where the target can hold the value: a source below the target's minpos must give the open interval next to
-    # zero (encoding 1 under the sign), which the library does correctly -- a wrong answer there is not this finding
-    n = cfg_ints(c)[0]
-    m = ints(c['model'])
-    if len(m) == 1 and (m[0] & ((1 << (n - 1)) - 1)) == 1:
-        return False
-    return True
+    return e == 0 and f != 0
 
 
 @pred
